@@ -38,6 +38,10 @@ def wrap_expr(e, wrap):
         return e
     if wrap == 'raises_exception':
         return '(%s) // 0' % e
+    if wrap == 'raises_true_text':
+        return "(_ for _ in ()).throw(ValueError('true'))"
+    if wrap == 'raises_t_text':
+        return '(1, 2)[ln]'             # IndexError: tuple index out of range
     return '(_ for _ in ()).throw(KeyboardInterrupt)'
 
 
